@@ -339,3 +339,15 @@ def alpha(text: str) -> str:
     if suffix:
         out = out.split(":\n")[0] if out.endswith("pass") else out
     return " ".join(out.split())
+
+
+def find_in(roots, pattern: str, env0=None) -> list[dict]:
+    """find() over several roots (a function and the helpers it was split into)"""
+    out = []
+    for r in roots:
+        out += find(r, pattern, env0)
+    return out
+
+
+def has_in(roots, pattern: str, env0=None) -> bool:
+    return any(has(r, pattern, env0) for r in roots)
